@@ -1485,7 +1485,17 @@ class ArrayToBlocks(Linop):
         return BlocksToArray(self.ishape, self.blk_shape, self.blk_strides)
 
     def _normal_linop(self):
-        return Identity(self.ishape)
+        # A^H A is the identity only if the blocks tile the array exactly.
+        D = len(self.blk_shape)
+        if all(
+            b == s and (i - b) % s == 0
+            for i, b, s in zip(
+                self.ishape[-D:], self.blk_shape, self.blk_strides
+            )
+        ):
+            return Identity(self.ishape)
+
+        return self.H * self
 
 
 class BlocksToArray(Linop):
@@ -1524,7 +1534,11 @@ class BlocksToArray(Linop):
         return ArrayToBlocks(self.oshape, self.blk_shape, self.blk_strides)
 
     def _normal_linop(self):
-        return Identity(self.ishape)
+        # A^H A is the identity only if the blocks do not overlap.
+        if all(s >= b for b, s in zip(self.blk_shape, self.blk_strides)):
+            return Identity(self.ishape)
+
+        return self.H * self
 
 
 def Gradient(ishape, axes=None):
